@@ -148,6 +148,8 @@ def build_shape(spec):
     if spec.get("rotate"):
         ang, ax, org = spec["rotate"]
         s.rotate(ang, ax, org)
+    for side, name in (spec.get("patches") or {}).items():
+        s.set_patch(side, name)
     return s
 
 
@@ -157,6 +159,10 @@ def build_mesh(prog):
     mesh = cb.Mesh()
     shapes = []
     for spec in prog:
+        if spec.get("kind") == "merge":
+            # a merged pair: the corners on the slave patch get their own vertices, at the positions of the master's
+            mesh.merge_patches(spec["args"][0], spec["args"][1])
+            continue
         s = build_shape(spec)
         mesh.add(s)
         shapes.append(s)
@@ -251,6 +257,18 @@ def gen_round(rng, kind=None):
 def gen_mesh_prog(rng):
     k = rng.random()
     prog = []
+    if k < 0.15:
+        # two boxes face to face whose interface is a merged patch pair: two vertices at every interface corner
+        c, d = gen_box(rng)
+        a = rng.randrange(3)
+        lo_side, hi_side = [("left", "right"), ("front", "back"), ("bottom", "top")][a]
+        c2, d2 = list(c), list(d)
+        c2[a] = d[a]
+        d2[a] = d[a] + (dyadic(rng.uniform(0.25, 2.0), 3) or 0.25)
+        prog.append(dict(kind="box", args=[c, d], patches={hi_side: "master_1"}))
+        prog.append(dict(kind="box", args=[c2, d2], patches={lo_side: "slave_1"}))
+        prog.append(dict(kind="merge", args=["master_1", "slave_1"]))
+        return prog
     if k < 0.55:
         c, d = gen_box(rng)
         spec = dict(kind="box", args=[c, d])
